@@ -1273,7 +1273,7 @@ def _hex_to_rgb_or_rgba(color, alpha_float=True):
     :raises: :py:exc:`ValueError` in case the provided string could not
                 converted into a RGB(A) tuple
     """
-    if color[0] == '#':
+    if color[:1] == '#':
         color = color[1:]
     if 2 < len(color) < 5:
         # Expand RGB -> RRGGBB and RGBA -> RRGGBBAA
